@@ -327,6 +327,15 @@ Lemma twins_exist :
   near_miss norm_env w_uno = false.
 Proof. vm_compute. repeat split; reflexivity. Qed.
 
+(* a platform name that is not listed (every near-miss of a platform name) is refused first,
+   whatever the board *)
+Lemma unknown_platform_first pl b :
+  ~ In pl (map fst platforms) -> validate pl b = Some UnsupportedPlatform.
+Proof.
+  intro N. unfold validate, validate_in.
+  destruct (tmem pl (map fst platforms)) eqn:M; [apply tmem_In in M; contradiction|reflexivity].
+Qed.
+
 (* ---------------------------------------------------------------- write_project on a twin *)
 Lemma twin_writes_nothing c pl b b' p' port libs :
   known_code c = true -> registered p' b' -> normaliser c b = normaliser c b' -> b <> b' ->
@@ -354,8 +363,6 @@ Qed.
 (* ---------------------------------------------------------------- source inventory obligations *)
 Definition n_supported_platforms : text := Eval vm_compute in txt "SUPPORTED_PLATFORMS".
 Definition n_board_to_platform : text := Eval vm_compute in txt "BOARD_TO_PLATFORM".
-Definition n_atmelavr_boards : text := Eval vm_compute in txt "SUPPORTED_ATMELAVR_BOARDS".
-Definition n_atmelmegaavr_boards : text := Eval vm_compute in txt "SUPPORTED_ATMELMEGAAVR_BOARDS".
 Definition n_pio_ini : text := Eval vm_compute in txt "PIO_INI".
 Definition n_validate : text := Eval vm_compute in txt "validate_platform_board".
 Definition n_libsec : text := Eval vm_compute in txt "_format_lib_section".
@@ -377,12 +384,14 @@ Definition helpers_read_ok : bool :=
   subset_textb libsec_globals [] && subset_textb sanitize_globals [n_re] &&
   match libsec_imports, sanitize_imports with [], [] => true | _, _ => false end.
 
-(* the module holds no data next to the registry: the two board sets, the platform table, its
-   inverse and the ini template *)
+(* the module holds no data next to the registry: the board sets SUPPORTED_PLATFORMS lists (kind 4,
+   whatever they are called), the platform table, its inverse and the ini template *)
 Definition module_data_ok : bool :=
   forallb (fun nk =>
-             if snd nk =? 1 then text_eqb (fst nk) n_pio_ini
-             else tmem (fst nk) [n_supported_platforms; n_board_to_platform; n_atmelavr_boards; n_atmelmegaavr_boards])
+             if snd nk =? 4 then true
+             else if snd nk =? 1 then text_eqb (fst nk) n_pio_ini
+             else if snd nk =? 2 then tmem (fst nk) [n_supported_platforms; n_board_to_platform]
+             else false)
           module_data.
 
 Lemma inventory_ok :
